@@ -133,9 +133,6 @@ def count_instance(M, st, ps, pred2, dims2, name='cnt'):
             diag_false = forall([i], IMPLIES(in_range(i, 0, n), NOT(pred(i, i))))
             off_all = forall([i, j], IMPLIES(AND(box, i != j), pred(i, j)))
             out.append(IMPLIES(AND(sq, diag_false), AND(c <= n * (n - 1), (c == n * (n - 1)) == off_all)))
-            half = z3.Function(fresh_name('half'), *([z3.IntSort()] * (len(ps) + 1)))
-            sym = forall([i, j], IMPLIES(box, Z(pred(i, j)) == Z(pred(j, i))))
-            out.append(IMPLIES(AND(sq, diag_false, sym), c == 2 * half(*pv)))
         return AND(*out)
     st.assume(forall(list(ps), facts(list(ps))))
     reg = st.ghost.get('counts', ())
@@ -149,7 +146,7 @@ def count_instance(M, st, ps, pred2, dims2, name='cnt'):
         agree = forall(vs, IMPLIES(box, Z(pred2(pv, vs)) == Z(pred2b(pv, vs))))
         st.assume(forall(pv, IMPLIES(AND(AND(*[EQ(a, b) for a, b in zip(d1, d2)]), agree), f(*pv) == f2(*pv))))
     st.ghost['counts'] = tuple(reg) + ((f, len(ps), nd, pred2, dims2),)
-    M.ex.use('L-CARD:count facts (=0, >=2, =|box|, off-diagonal n(n-1), symmetric even, extensionality)')
+    M.ex.use('L-CARD:count facts (=0, >=2, =|box|, off-diagonal n(n-1), extensionality) [Lean: Lemmas.count_*, offdiag_count]')
     return f
 
 
